@@ -16,7 +16,7 @@ COMMON_ASSUMPTIONS = [
 ]
 
 # output fields whose corruption the negative control tries, per event kind
-CORRUPTIBLE = {"sign": ["sig", "stored_key"], "keygen": ["pk", "sk"], "lifetime": ["val"],
+CORRUPTIBLE = {"sign": ["sig", "stored_key", "mem_after"], "keygen": ["pk", "sk"], "lifetime": ["val"],
                "hook": ["digits", "life", "succ", "seed"], "verify": []}
 
 MSG_LENS = [0, 1, 15, 16, 23, 24, 31, 32, 55, 56, 64, 300]
@@ -358,3 +358,358 @@ REGISTRY = {
     "C07": {"phases": c07_phases, "neg_cfgs": ["TraceBytes_negDMESG.cfg"]},
     "C08": {"phases": c08_phases, "neg_cfgs": ["TraceBytes_negTOPSEED.cfg"]},
 }
+
+
+# =================================================================================================
+# Protocol layer: C03 C04 C05 C09 C11 share the HssApi model, its walks and TraceApi
+# =================================================================================================
+import os
+import vlib
+from vlib import ToolError, run_tlc, tlc_printed, seed_int
+
+API_POSITIVE = [("MC_Api_1.cfg", 8), ("MC_Api_2.cfg", 8), ("MC_Api_11.cfg", 8), ("MC_Api_12.cfg", 8), ("MC_Api_21.cfg", 8),
+                ("MC_Api_111.cfg", 8)]
+API_POSITIVE_THOROUGH = [("MC_Api_22.cfg", 12), ("MC_Api_2keys.cfg", 12), ("MC_Api_212.cfg", 14)]
+API_NEGATIVE = [("MC_Api_neg_stale.cfg", "Invariant NoReuse is violated"),
+                ("MC_Api_neg_early.cfg", "Action property SigReturnedOnlyViaOk is violated"),
+                ("MC_Api_neg_noadvance.cfg", "Invariant NoReuse is violated")]
+
+
+def api_design(ctx, negatives=None):
+    runs = [{"module": "MC_Api", "cfg": c, "workers": w, "xmx": "12g"} for c, w in API_POSITIVE]
+    if ctx["tier"] != "quick":
+        runs += [{"module": "MC_Api", "cfg": c, "workers": w, "xmx": "16g", "timeout": 2400} for c, w in API_POSITIVE_THOROUGH]
+    for c, exp in API_NEGATIVE:
+        if negatives is None or c in negatives:
+            runs.append({"module": "MC_Api", "cfg": c, "workers": 4, "expect": exp})
+    return runs
+
+
+SHAPE_OF_CFG = {"GenWalks_2.cfg": [2], "GenWalks_22.cfg": [2, 2], "GenWalks_2keys.cfg": [2]}
+
+
+def gen_walks(ctx, cfg, num, depth=600):
+    """behaviours of the HssApi model, produced by TLC in simulation mode (seeded by VERIF_SEED)"""
+    rc, out, st = run_tlc("GenWalks", cfg, os.path.join(ctx["workdir"], "meta-" + cfg), workers=1, xmx="4g", timeout=900,
+                          extra=["-simulate", "num=%d" % num, "-depth", str(depth), "-seed", str(seed_int() + 17)])
+    walks = tlc_printed(out, "WALK")
+    uniq = []
+    seen = set()
+    for w in walks:
+        key = json.dumps(w)
+        if key not in seen:
+            seen.add(key)
+            uniq.append(w)
+    if not uniq:
+        raise ToolError("GenWalks produced no walk: " + out[-1500:])
+    return uniq[:num], st
+
+
+def concretise_walk(name, walk, heights, wi, aux_mode="none"):
+    """abstract external actions -> harness commands (no expected values)"""
+    algs = {}
+    cmds = []
+    total = 1 << sum(heights)
+    ws = [1, 2, 4, 8]
+
+    def alg_of(k):
+        if k not in algs:
+            algs[k] = ALGS[(wi + len(algs) * 2) % 6]
+        return algs[k]
+
+    def params_of(k):
+        return [(ws[(wi + i + (0 if k == "k1" else 1)) % 4], h) for i, h in enumerate(heights)]
+
+    msgs = {"m1": msg_hex(name + "/m1", 13), "m2": msg_hex(name + "/m2", 40)}
+    n_sign = 0
+    for ai, a in enumerate(walk):
+        k = a.get("k")
+        if a["a"] == "keygen":
+            alg = alg_of(k)
+            kg = cmd_keygen(alg, params_of(k), seed_hex("%s/%s" % (name, k), alg), out={"sk": "store_" + k, "pk": "pk_" + k})
+            if aux_mode != "none":
+                kg["aux"] = {"rep": 600, "byte": 0}
+                kg["out"]["aux"] = "aux_" + k
+            kg["k"] = k
+            cmds.append(kg)
+            cmds.append({"op": "load", "alg": alg, "mem": "mem_" + k, "key": slot("store_" + k), "k": k})
+        elif a["a"] == "sign":
+            alg = alg_of(k)
+            c = cmd_sign(alg, slot("store_" + k), msgs[a["m"]], plan=a["plan"],
+                         api="bytes" if a["api"] == "bytes" else ("mem_aux" if aux_mode != "none" else "mem"),
+                         mem="mem_" + k, out={"sig": "sig", "next": "store_" + k} if a["api"] == "bytes" else {"sig": "sig"})
+            if aux_mode == "valid":
+                c["aux"] = slot("aux_" + k)
+            elif aux_mode == "fresh":
+                c["aux"] = {"rep": 300, "byte": 0}
+            elif aux_mode == "garbage":
+                c["aux"] = {"cat": ["00" if n_sign % 2 else "a5", {"rand": 299, "tag": "%s/aux/%d" % (name, ai)}]}
+            c["k"] = k
+            cmds.append({"op": "set", "slot": "sig", "value": ""})
+            cmds.append(c)
+            cmds.append(cmd_verify(alg, msgs[a["m"]], slot("sig"), slot("pk_" + k)))
+            n_sign += 1
+        elif a["a"] == "sign_bad":
+            alg = alg_of(k)
+            n = N_OF[alg]
+            if a["tag"] == "wiped":
+                key = "00" * 8 + "ff" * 8 + "00" * n
+            elif a["tag"] == "live":
+                key = key_at("store_" + k, total + a["over"])
+            else:
+                kind = det_int("%s/bad/%d" % (name, ai), 5)
+                if kind == 0:
+                    key = {"mut": slot("store_" + k), "kind": "set", "off": 8, "with": "0%x" % det_int("%s/b/%d" % (name, ai), 16)}
+                elif kind == 1:
+                    key = {"mut": slot("store_" + k), "kind": "trunc", "len": det_int("%s/t/%d" % (name, ai), 16 + n)}
+                elif kind == 2:
+                    key = {"mut": slot("store_" + k), "kind": "extend", "with": "00"}
+                elif kind == 3:
+                    key = {"mut": slot("store_" + k), "kind": "set", "off": 8 + len(heights) - 1, "with": "%02x" % (0xa0 + det_int("%s/c/%d" % (name, ai), 0x50))}
+                else:
+                    key = {"mut": slot("store_" + k), "kind": "set", "off": 8, "with": "ff"}
+            c = cmd_sign(alg, key, msgs[a["m"]], plan=a["plan"], out={"sig": "sig"})
+            c["k"] = k
+            c["bad"] = True
+            cmds.append(c)
+        elif a["a"] == "reload":
+            cmds.append({"op": "load", "alg": alg_of(k), "mem": "mem_" + k, "key": slot("store_" + k), "k": k})
+        elif a["a"] == "persist":
+            cmds.append({"op": "persist", "alg": alg_of(k), "mem": "mem_" + k, "out": {"key": "store_" + k}, "k": k})
+        elif a["a"] == "crash":
+            cmds.append({"op": "crash"})
+        elif a["a"] == "lifetime":
+            c = cmd_lifetime(alg_of(k), key=slot("store_" + k)) if a["api"] == "bytes" else cmd_lifetime(alg_of(k), mem="mem_" + k)
+            c["k"] = k
+            cmds.append(c)
+    cost = 0.3 + 0.08 * len(cmds)
+    return {"name": name, "cmds": cmds, "cost": cost, "walk": walk}
+
+
+def api_walk_groups(ctx, plan):
+    """plan: list of (cfg, number of walks, aux modes)"""
+    groups = []
+    stats = {}
+    labels = set()
+    for cfg, num, aux_modes in plan:
+        walks, st = gen_walks(ctx, cfg, num)
+        stats[cfg] = {"walks": len(walks), "sim_states": st["states"]}
+        for wi, w in enumerate(walks):
+            mode = aux_modes[wi % len(aux_modes)]
+            groups.append(concretise_walk("walk/%s/%d" % (cfg.replace(".cfg", ""), wi), w, SHAPE_OF_CFG[cfg], wi, mode))
+            for a in w:
+                labels.add((a["a"], a.get("api"), a.get("plan"), a.get("tag")))
+    ctx["walk_stats"] = stats
+    ctx["walk_labels"] = len(labels)
+    return groups
+
+
+def lifetime_walk(name, alg, params, plans_cycle, api="bytes"):
+    """complete lifetime with a lifetime query before and after every step, callback plans mixed in, and
+    attempts after exhaustion"""
+    k = "k1"
+    cmds = []
+    kg = cmd_keygen(alg, params, seed_hex(name, alg), out={"sk": "store_k1", "pk": "pk_k1"})
+    kg["k"] = k
+    cmds.append(kg)
+    cmds.append({"op": "load", "alg": alg, "mem": "mem_k1", "key": slot("store_k1"), "k": k})
+    total = lifetime_of(params)
+    done = 0
+    i = 0
+    while done < total and i < 4 * total + 8:
+        plan = plans_cycle[i % len(plans_cycle)]
+        lt = cmd_lifetime(alg, key=slot("store_k1")) if api == "bytes" else cmd_lifetime(alg, mem="mem_k1")
+        lt["k"] = k
+        cmds.append(lt)
+        m = msg_hex("%s/%d" % (name, i), 9)
+        c = cmd_sign(alg, slot("store_k1"), m, plan=plan if api == "bytes" else "accept", api=api, mem="mem_k1",
+                     out={"sig": "sig", "next": "store_k1"} if api == "bytes" else {"sig": "sig"})
+        c["k"] = k
+        cmds.append({"op": "set", "slot": "sig", "value": ""})
+        cmds.append(c)
+        cmds.append(cmd_verify(alg, m, slot("sig"), slot("pk_k1")))
+        if api == "bytes" and plan in ("crash_before", "crash_after"):
+            pass
+        if api != "bytes" or plan in ("accept", "crash_after"):
+            done += 1
+        i += 1
+    # exhausted: everything must now be refused without a callback
+    for j in range(3):
+        lt = cmd_lifetime(alg, key=slot("store_k1")) if api == "bytes" else cmd_lifetime(alg, mem="mem_k1")
+        lt["k"] = k
+        cmds.append(lt)
+        c = cmd_sign(alg, slot("store_k1"), msg_hex("%s/x/%d" % (name, j), 5), plan=["accept", "reject", "accept"][j] if api == "bytes" else "accept", api=api,
+                     mem="mem_k1", out={"sig": "sig"})
+        c["k"] = k
+        cmds.append(c)
+    return {"name": name, "cmds": cmds, "cost": 0.3 + 0.1 * len(cmds)}
+
+
+def api_phases(ctx, emphasis):
+    quick = ctx["tier"] == "quick"
+    nw = 10 if quick else 40
+    plan = [("GenWalks_2.cfg", nw, ["none", "valid", "fresh", "garbage"]),
+            ("GenWalks_22.cfg", nw, ["none", "fresh", "valid"]),
+            ("GenWalks_2keys.cfg", nw // 2, ["none"])]
+    groups = api_walk_groups(ctx, plan)
+    # deterministic systematic walks: complete lifetimes under every callback plan
+    cyc = [["accept"], ["reject", "accept"], ["crash_before", "accept", "reject", "crash_after"], ["crash_after"]]
+    for ai, alg in enumerate(ALGS if not quick else ALGS[::2]):
+        ws = [1, 2, 4, 8]
+        groups.append(lifetime_walk("life/%s/h2" % alg, alg, [(ws[ai % 4], 2)], cyc[ai % 4]))
+        groups.append(lifetime_walk("life/%s/h2x2" % alg, alg, [(ws[(ai + 1) % 4], 2), (ws[(ai + 2) % 4], 2)], cyc[(ai + 1) % 4]))
+        groups.append(lifetime_walk("life/%s/h2-mem" % alg, alg, [(ws[(ai + 3) % 4], 2)], ["accept"], api="mem"))
+        if not quick:
+            groups.append(lifetime_walk("life/%s/h2x2x2" % alg, alg, [(4, 2), (ws[ai % 4], 2), (2, 2)], cyc[(ai + 2) % 4]))
+            groups.append(lifetime_walk("life/%s/h5" % alg, alg, [(4, 5)], cyc[(ai + 3) % 4]))
+    return [{"tag": emphasis, "groups": groups, "trace_module": "TraceApi", "trace_cfg": "TraceApi.cfg",
+             "space": "behaviours of HssApi (TLC simulation, seed VERIF_SEED) + complete lifetimes under every callback plan"}]
+
+
+def api_cov(ctx, cov):
+    return {"walk_generation": ctx.get("walk_stats"), "distinct_external_action_labels_in_walks": ctx.get("walk_labels")}
+
+
+for _p, _neg in (("C03", ["MC_Api_neg_stale.cfg", "MC_Api_neg_noadvance.cfg"]), ("C04", ["MC_Api_neg_early.cfg"]),
+                 ("C05", ["MC_Api_neg_noadvance.cfg"]), ("C09", [])):
+    REGISTRY[_p] = {"design": (lambda neg: (lambda ctx: api_design(ctx, neg)))(_neg),
+                    "phases": (lambda p: (lambda ctx: api_phases(ctx, p.lower())))(_p),
+                    "coverage_extra": api_cov, "neg_cfgs": ["TraceApi_negSucc.cfg"]}
+
+
+# =================================================================================================
+# C11 - keygen / sign / lifetime reject malformed inputs instead of crashing
+# =================================================================================================
+def c11_phases(ctx):
+    quick = ctx["tier"] == "quick"
+    groups = []
+    from vlib import HT, WT
+    for ai, alg in enumerate(ALGS):
+        n = N_OF[alg]
+        # (a) parameter lists of length 0..10
+        cmds = []
+        for ln in range(0, 11):
+            cmds.append(cmd_keygen(alg, [(4, 2)] * ln, seed_hex("c11/a/%s" % alg, alg), out={"sk": "x", "pk": "y"}, meta={"class": "param_list_len", "len": ln}))
+        groups.append({"name": "c11/%s/listlen" % alg, "cmds": cmds, "cost": 2.0})
+        # (b) key blob lengths 0..64, through every entry point
+        base = [(2, 2)] if ai % 2 == 0 else [(4, 2), (2, 2)]
+        cmds = [cmd_keygen(alg, base, seed_hex("c11/b/%s" % alg, alg))]
+        for ln in range(0, 65):
+            blob = {"cat": [{"slice": slot("sk"), "off": 0, "len": min(ln, 16 + n)}, {"rand": max(0, ln - 16 - n), "tag": "c11/pad/%d" % ln}]}
+            meta = {"class": "key_len", "len": ln}
+            cmds.append(cmd_sign(alg, blob, "aabb", meta=meta, plan="accept" if ln % 2 else "reject"))
+            cmds.append(cmd_lifetime(alg, key=blob, meta=meta))
+            if ln <= 48:
+                cmds.append({"op": "load", "alg": alg, "mem": "m", "key": blob, "meta": meta})
+                cmds.append(cmd_sign(alg, None, "aabb", api="mem_aux" if ln % 3 == 0 else "mem", mem="m", meta=meta))
+                cmds.append(cmd_lifetime(alg, mem="m", meta=meta))
+        groups.append({"name": "c11/%s/keylen" % alg, "cmds": cmds, "cost": 4.0})
+        # (c) all 256 values of each of the 8 parameter bytes
+        for pos in range(8):
+            if quick and (pos + ai) % 3 != 0 and pos > 1:
+                continue
+            cmds = [cmd_keygen(alg, base, seed_hex("c11/c/%s" % alg, alg))]
+            cost = 1.0
+            for val in range(256):
+                lms_t, ots_t = val >> 4, val & 15
+                if val != 0xff and lms_t in (7, 8, 9) and ots_t in (1, 2, 3, 4):
+                    continue   # H15..H25: enumerated, not executed (stated bound)
+                if lms_t == 6 and ots_t in (1, 2, 3, 4) and (quick or N_OF[alg] != 16 or ots_t == 4):
+                    continue   # H10 only for the cheapest hash/w combinations, thorough tier
+                key = {"mut": slot("sk"), "kind": "set", "off": 8 + pos, "with": "%02x" % val}
+                meta = {"class": "param_byte", "pos": pos, "value": val}
+                cmds.append(cmd_sign(alg, key, "00", meta=meta, light=True, plan="accept"))
+                cmds.append(cmd_lifetime(alg, key=key, meta=meta))
+                cost += 0.05
+            groups.append({"name": "c11/%s/parambyte%d" % (alg, pos), "cmds": cmds, "cost": cost})
+        # (d) counters at and beyond the end, wiped and exhausted keys
+        cmds = [cmd_keygen(alg, base, seed_hex("c11/d/%s" % alg, alg))]
+        total = lifetime_of(base)
+        for ctr in [total - 1, total, total + 1, 2 * total, 2 * total - 1, (1 << 32), (1 << 63), (1 << 64) - 1, (1 << 64) - total]:
+            meta = {"class": "counter", "ctr": "%016x" % ctr}
+            for plan in ("accept", "reject"):
+                cmds.append(cmd_sign(alg, key_at("sk", ctr), "0102", meta=meta, plan=plan))
+            cmds.append(cmd_lifetime(alg, key=key_at("sk", ctr), meta=meta))
+        wiped = "00" * 8 + "ff" * 8 + "00" * n
+        for plan in ("accept", "reject", "crash_before"):
+            cmds.append(cmd_sign(alg, wiped, "03", meta={"class": "wiped"}, plan=plan))
+        cmds.append(cmd_lifetime(alg, key=wiped, meta={"class": "wiped"}))
+        cmds.append(cmd_sign(alg, {"mut": wiped, "kind": "set", "off": 16, "with": "01"}, "03", meta={"class": "wiped_seed_nonzero"}))
+        groups.append({"name": "c11/%s/counters" % alg, "cmds": cmds, "cost": 2.0})
+        # (e) auxiliary buffers: short lengths and every bit of the level word, keygen and sign
+        cmds = [cmd_keygen(alg, [(4, 5)], seed_hex("c11/e/%s" % alg, alg), aux={"rep": 4 + n + 32 * n + 8 * n + 2 * n + 20, "byte": 0},
+                           out={"sk": "sk", "pk": "pk", "aux": "aux"})]
+        for ln in list(range(0, 12)) + [n, n + 3, n + 4, n + 5, 4 + 3 * n]:
+            for fill in (0, 0xa5):
+                meta = {"class": "aux_short", "len": ln, "fill": fill}
+                cmds.append(cmd_keygen(alg, [(4, 5)], seed_hex("c11/e/%s" % alg, alg), aux={"rep": ln, "byte": fill}, out={"sk": "x"}, meta=meta))
+                cmds.append(cmd_sign(alg, slot("sk"), "04", aux={"rep": ln, "byte": fill}, meta=meta))
+            meta = {"class": "aux_truncated", "len": ln}
+            cmds.append(cmd_sign(alg, slot("sk"), "05", aux={"mut": slot("aux"), "kind": "trunc", "len": ln}, meta=meta))
+            cmds.append(cmd_keygen(alg, [(4, 5)], seed_hex("c11/e/%s" % alg, alg), aux={"mut": slot("aux"), "kind": "trunc", "len": ln}, out={"sk": "x"}, meta=meta))
+        for bit in range(32):
+            meta = {"class": "aux_level_word_bit", "bit": bit}
+            a = {"mut": slot("aux"), "kind": "flip", "off": bit // 8, "bit": 7 - bit % 8}
+            cmds.append(cmd_sign(alg, key_at("sk", bit % 32), "06", aux=a, meta=meta))
+            cmds.append(cmd_keygen(alg, [(4, 5)], seed_hex("c11/e/%s" % alg, alg), aux=a, out={"sk": "x"}, meta=meta))
+        groups.append({"name": "c11/%s/aux" % alg, "cmds": cmds, "cost": 3.0 + tree_cost(alg, 4, 5)})
+    return [{"tag": "c11", "groups": groups,
+             "space": "parameter-list lengths 0..10; key lengths 0..64 x entry points; 8 parameter bytes x 256 values; counters at/beyond 2^T; "
+                      "wiped keys; aux lengths and every level-word bit"}]
+
+
+REGISTRY["C11"] = {"phases": c11_phases, "design": lambda ctx: api_design(ctx, [])[:3]}
+
+
+# =================================================================================================
+# C12 - the Winternitz digit encoding is RFC-exact and domination-free
+# =================================================================================================
+def gen_digests(ctx, n, w, stride):
+    outp = os.path.join(ctx["workdir"], "digests_%d_%d.ndjson" % (n, w))
+    rc, out, st = run_tlc("GenDigests", "GenDigests.cfg", os.path.join(ctx["workdir"], "meta-gd-%d-%d" % (n, w)),
+                          env={"GEN_N": str(n), "GEN_W": str(w), "GEN_STRIDE": str(stride), "GEN_OUT": outp}, timeout=900, xmx="4g")
+    if rc != 0 or not os.path.exists(outp):
+        raise ToolError("GenDigests failed: " + out[-1500:])
+    return [json.loads(x) for x in open(outp)]
+
+
+def c12_phases(ctx):
+    quick = ctx["tier"] == "quick"
+    from vlib import WT
+    groups = []
+    sizes = {}
+    from concurrent.futures import ThreadPoolExecutor
+    jobs = [(n, w) for n in (16, 24, 32) for w in (1, 2, 4, 8)]
+    with ThreadPoolExecutor(max_workers=6) as ex:
+        res = list(ex.map(lambda nw: gen_digests(ctx, nw[0], nw[1], 13 if quick else 1), jobs))
+    dig = dict(zip(jobs, res))
+    for alg in ALGS:
+        n = N_OF[alg]
+        cmds = [{"op": "hook", "hook": "ots_params", "alg": alg, "type": t} for t in (1, 2, 3, 4)]
+        groups.append({"name": "c12/%s/params" % alg, "cmds": cmds, "cost": 0.5})
+        for w in (1, 2, 4, 8):
+            ds = dig[(n, w)]
+            sizes["%d/%d" % (n, w)] = len(ds)
+            # SHAKE variants share the encoder with SHA-256 of the same n: they get the extremes and a sample
+            if not IS_SHA(alg):
+                ds = [d for i, d in enumerate(ds) if d["family"] == "ext" or i % 17 == 0]
+            chunk = 1500
+            for s in range(0, len(ds), chunk):
+                cmds = [{"op": "hook", "hook": "digits", "alg": alg, "type": WT[w], "digest": d["hex"], "meta": {"family": d["family"]}}
+                        for d in ds[s:s + chunk]]
+                cmds += [{"op": "hook", "hook": "digits", "alg": alg, "type": WT[w], "digest": det_bytes("c12/%s/%d/%d" % (alg, w, i), n).hex(),
+                          "meta": {"family": "random"}} for i in range(20 if s == 0 else 0)]
+                groups.append({"name": "c12/%s/w%d/%d" % (alg, w, s), "cmds": cmds, "cost": 0.3 + len(cmds) * 0.004 * (8 // w)})
+    ctx["digest_space"] = sizes
+    return [{"tag": "c12", "groups": groups,
+             "space": "parameter table for 6 hashes x 4 types; digests enumerated by GenDigests.tla: every byte position x byte value, every attainable checksum value, extremes, random"}]
+
+
+def IS_SHA(alg):
+    return alg.startswith("sha256")
+
+
+REGISTRY["C12"] = {"phases": c12_phases,
+                   "design": lambda ctx: [{"module": "MC_Ots", "cfg": "MC_Ots.cfg", "workers": 8, "xmx": "8g"}],
+                   "coverage_extra": lambda ctx, cov: {"digest_space_sizes": ctx.get("digest_space"),
+                                                       "exhaustive_on_spec": "MC_Ots: all 12 parameter sets, every attainable checksum value, every digit position x byte value, all pairs of one-byte digests"}}
